@@ -1082,7 +1082,13 @@ class _Observer:
         after.hedger, after.aux, after.last, after.post, after.failed = keep[:5]
         del after.trace[keep[5]:]
         after.access = keep[6]
-        if not W.same_result(out_live, ref_a):
+        rt = W.raised_type(out_live)
+        if rt and not W.raised_type(ref_a):
+            ctx.violation(site, tag + f"history_dependent:raises:{rt}",
+                          f"after {_fmt(hist)} the operation {_fmt([op])} raises ({W.describe(out_live)}) while a fresh hedger "
+                          f"holding the same parameters on the same instruments returns a value [variant {self.variant}]",
+                          observed=W.describe(out_live), expected=W.describe(ref_a), block=blk)
+        elif not W.same_result(out_live, ref_a):
             ctx.violation(site, tag + "history_dependent:vs_fresh_hedger",
                           f"after {_fmt(hist)} the result of {_fmt([op])} differs from a fresh hedger holding the same "
                           f"parameters on the same instruments [variant {self.variant}]",
@@ -1097,7 +1103,12 @@ class _Observer:
             self.memo[pkey] = W.safe_apply(proj, ref_op)
             ctx.add("reference_worlds_built", 1)
         ref_b = self.memo[pkey]
-        if not W.same_result(out_live, ref_b):
+        if rt and not W.raised_type(ref_b):
+            ctx.violation(site, tag + f"history_dependent:raises:{rt}",
+                          f"after {_fmt(hist)} the operation {_fmt([op])} raises ({W.describe(out_live)}) while a fresh hedger with "
+                          f"the same parameters on the derivative's current series returns a value [variant {self.variant}]",
+                          observed=W.describe(out_live), expected=W.describe(ref_b), block=blk)
+        elif not W.same_result(out_live, ref_b):
             ctx.violation(site, tag + "history_dependent:vs_current_data",
                           f"after {_fmt(hist)} the result of {_fmt([op])} differs from a fresh hedger with the same "
                           f"parameters on the derivative's current series (only simulate/to replayed: "
